@@ -121,7 +121,13 @@ def run_one(params, with_dups):
                 except (proto.ParseError, ValueError):
                     pass
             if drng.random() < 0.5:
-                out = struct.pack(">H", drng.randint(1, 65535)) + out[2:]
+                # an id the relay made up: never one the client itself has used or is about to use (a relay keeps its own
+                # ids apart from its clients'; a collision would make the model client take the copy's answer for its own)
+                nid = drng.randint(1, 65535)
+                own_next = {(V.next_id + 7727 * j) & 0xFFFF for j in range(1, 400)}
+                while nid in V.my_ids or nid in own_next:
+                    nid = drng.randint(1, 65535)
+                out = struct.pack(">H", nid) + out[2:]
                 kind.append("newid")
             sport = V.sport
             src_ip = V.ip
